@@ -154,7 +154,7 @@ theorem outer_edc : ∀ (l : List (Nat × List Nat)) (d : List Entry) (acc : Acc
       simpa [List.append_assoc] using this
 
 theorem accepts_edc_direct (p : Particle) (h : M.accepts p = true) :
-    ∀ v1 ∈ (p.leafPaths []).map (·.1), ∀ v2 ∈ (p.leafPaths []).map (·.1),
+    ∀ v1 ∈ (M.visited p).map (·.1), ∀ v2 ∈ (M.visited p).map (·.1),
       M.isElem v1 = true → M.isElem v2 = true →
       (M.info v1).name = (M.info v2).name → (M.info v1).ty = (M.info v2).ty := by
   have hinv : Inv M [] [] := by
@@ -162,8 +162,8 @@ theorem accepts_edc_direct (p : Particle) (h : M.accepts p = true) :
     · intro x hx; cases hx
     · intro x hx; cases hx
     · intro v hv; cases hv
-  have herr : (M.outer (p.leafPaths []) [] {}).err = none := by
+  have herr : (M.outer (M.visited p) [] {}).err = none := by
     simpa [Ctx.accepts, Ctx.checkModel] using h
-  simpa using outer_edc M (p.leafPaths []) [] {} [] hinv herr
+  simpa using outer_edc M (M.visited p) [] {} [] hinv herr
 
 end XsVerif.CM
